@@ -7,14 +7,17 @@ from collections import Counter
 
 PKG = "network/transport/v2"
 HARNESS = ["network/transport/v2/zz_verif_c07_test.go", "network/transport/v2/zz_verif_c07_gen_test.go",
-           "network/transport/v2/zz_verif_c15_test.go", "network/transport/v2/gossip/zz_verif_export_c07.go"]
+           "network/transport/v2/zz_verif_c15_test.go", "network/transport/v2/gossip/zz_verif_export_c07.go",
+           "network/transport/v2/zz_verif_c07_disp_test.go"]
 
 REQUIRED = ["safety_any_schedule", "unsolicited_responses_change_no_dag", "chunks_lossless", "stable_when_equal",
             "pull_round_result", "stuck_both_ways_same", "round_progress", "converges", "stable_after_convergence", "rounds_are_schedules", "range_reply_sorted_prefixclosed",
             "fact_constants", "fact_blockable", "fact_transaction_set_shape", "fact_transaction_list_shape", "fact_gossip_condition",
             "fact_handled_envelopes", "fact_liveness_constants", "fact_dispatch_and_wiring", "chunks_fit_message_limit", "fact_chunk_accounting", "fact_add_mutex_release", "add_mutex_released_on_every_exit", "deferred_once_releases_exactly_once", "hooks_alone_leave_mutex_locked", "fact_gossip_peer_table_keys", "disconnect_removes_queue", "reconnect_gets_fresh_queue", "connect_then_disconnect_leaves_no_entry",
             "iblt_bucket_indices_distinct_in_range", "iblt_subtract_represents_difference", "iblt_decode_contract", "iblt_garbage_and_size_mismatch_err", "modelled_iblt_satisfies_DC", "liveness_hypotheses_with_modelled_iblt",
-            "fact_iblt_constants", "fact_iblt_bucket_indices_shape", "fact_iblt_decode_shape", "fact_iblt_bucket_ops"]
+            "fact_iblt_constants", "fact_iblt_bucket_indices_shape", "fact_iblt_decode_shape", "fact_iblt_bucket_ops",
+            "dispatcher_refines_handler_sequence", "dispatcher_safety_any_goroutine_schedule", "full_channel_drop_is_loss", "handle_error_classification",
+            "list_handler_drains_in_order", "fact_dispatch_table_routes", "fact_dispatcher_shape"]
 
 
 IBLT_PKG = "network/dag/tree"
@@ -123,6 +126,116 @@ def run_iblt(ctx):
     ctx.cov["iblt_leg"] = {"decode_ops_by_outcome": dict(res_classes), "shapes": dict(shapes), "bucket_index_ops": n_idx, "bucket_index_ops_on_short_chain_cycles(linear probing)": n_cyc[0], "lines_equal": len(impl) - len(bad)}
 
 
+def is_disp_replay(path):
+    try:
+        with open(path) as f:
+            return '"op":"disp"' in f.read(200)
+    except OSError:
+        return False
+
+
+def _disp_ids(txt):
+    out = []
+    if txt == "-":
+        return out
+    for part in txt.split(","):
+        if ".." in part:
+            a, b = part.split("..")
+            out.extend(range(int(a), int(b) + 1))
+        else:
+            out.append(int(part))
+    return out
+
+
+def run_disp(ctx, binary):
+    """the REAL dispatcher (protocol.Handle / handle / handleASync / bounded TransactionList channel / transactionListHandler.start)
+    vs NutsModel/C07/Dispatch.lean + model-free oracles (the channel capacity itself is only compared with the regenerated fact)"""
+    env = {"VERIF_CORPUS": os.path.join(os.path.dirname(os.path.dirname(os.path.abspath(__file__))), "harness", "corpus", "C07")}
+    if ctx.replay:
+        env["VERIF_REPLAY"] = os.path.abspath(ctx.replay)
+    out = os.path.join(ctx.scratch, "out_disp")
+    rc, log, out = ctx.run_harness(binary, "TestVerifC07Disp$", env, outdir=out, timeout=900)
+    if rc != 0:
+        ctx.oblige("dispatcher-harness-runs", False, log[-1500:])
+        return
+    ops_p, impl_p, model_p = (os.path.join(out, x) for x in ("ops.jsonl", "impl.out", "model.out"))
+    ok, err = ctx.model("C07", ops_p, model_p)
+    ctx.oblige("dispatcher-model-driver-runs", ok, err[-500:])
+    impl, model, bad = ctx.compare(impl_p, model_p)
+    ops = ctx.read_lines(ops_p)
+    n_bad, per_sig, stats = 0, Counter(), Counter()
+
+    def viol(sig, what, i):
+        nonlocal n_bad
+        n_bad += 1
+        per_sig[sig] += 1
+        if per_sig[sig] <= 2:
+            ctx.violation(sig, what, f"disp-{sig.split(':')[1]}-{i}.jsonl", ops[i] + "\n")
+
+    for i, l in enumerate(impl):
+        if i >= len(ops):
+            break
+        o = json.loads(ops[i])
+        if "panic:" in l:
+            viol("C07:dispatcher-panic", f"the dispatcher panicked: {l[:300]}", i)
+            continue
+        toks = l.split(" ")
+        cap = int(toks[1].split("=")[1])
+        groups = toks[2:]
+        chan, nxt = [], 0         # model-free bookkeeping: ids waiting on the channel, next id
+        for g, (code, k) in zip(groups, o["evs"]):
+            body = g.split("=", 1)[1]
+            f = body.split(":")
+            if code == "L":
+                arrived = list(range(nxt, nxt + k))
+                nxt += k
+                chan_after = int(f[2].split("=")[1])
+                if f[1] not in ("-", f"nil*{k}"):
+                    viol("C07:dispatcher-list-arrival-returns-error", f"Handle of a TransactionList returned {f[1]} (must be nil: queued or dropped silently): {g}", i)
+                if chan_after > cap:
+                    viol("C07:dispatcher-channel-exceeds-capacity", f"{chan_after} lists wait on a channel of capacity {cap}", i)
+                acc = max(0, chan_after - len(chan))
+                if acc != min(k, cap - len(chan)) and chan_after <= cap:
+                    viol("C07:dispatcher-drops-list-while-channel-has-room", f"{k} TransactionLists arrived at a channel holding {len(chan)}/{cap}: {acc} were queued, {min(k, cap - len(chan))} fit", i)
+                chan += arrived[:acc]   # a non-blocking send keeps arrival order: the first ones fit
+                stats["list-arrivals"] += k
+                stats["list-arrivals-dropped(channel full)"] += k - acc
+            elif code == "U":
+                if f[1] not in ("-", f"notsup*{k}"):
+                    viol("C07:dispatcher-unknown-envelope-not-refused", f"Handle of an envelope of no known type returned {f[1]}, not errMessageNotSupported x{k}", i)
+                if int(f[2].split("=")[1]) != len(chan):
+                    viol("C07:dispatcher-unknown-envelope-changes-channel", f"an unknown envelope changed the list channel: {g}", i)
+                stats["unknown-envelopes"] += k
+            elif code == "D":
+                if f[1] not in ("-", f"nil*{k}") or f[2] != f"ran={k}":
+                    viol("C07:dispatcher-async-handler-lost", f"{k} DiagnosticsBroadcasts arrived, Handle returned {f[1]}, {f[2]} handlers ran", i)
+                stats["async-arrivals"] += k
+            elif code == "R":
+                got = _disp_ids(f[2])
+                if f[1] != "drained" or got != chan or int(f[3].split("=")[1]) != 0:
+                    viol("C07:dispatcher-list-order-or-loss", f"the list handler goroutine handled {f[2]} ({f[1]}), the channel held {len(chan)} lists "
+                         f"{chan[:3]}..{chan[-3:]} in arrival order: every queued TransactionList must be handled exactly once, in order", i)
+                stats["list-handler-drains"] += 1
+                stats["lists-handled"] += len(got)
+                chan = []
+    ctx.oblige("oracle:dispatcher-fifo,at-most-once,bounded,drop-only-when-full,unknown-refused,async-runs(impl)", n_bad == 0, f"{n_bad} problems")
+    if not ctx.replay:
+        miss = [k for k in ("list-arrivals-dropped(channel full)", "unknown-envelopes", "async-arrivals", "lists-handled") if stats[k] == 0]
+        ctx.oblige("generator-reaches-the-dispatcher-outcomes", not miss, f"not reached: {miss}")
+    if bad:
+        i = bad[0]
+        detail = f"dispatcher leg: first differing line {i}\nop   : {ops[i][:400] if i < len(ops) else None}\nimpl : {impl[i][:500] if i < len(impl) else None}\nmodel: {model[i][:500] if i < len(model) else None}"
+        ctx.oblige("correspondence:dispatcher-model=impl", False, f"{len(bad)} of {len(impl)} lines differ; " + detail[:900])
+        if n_bad == 0:
+            with open(os.path.join(ctx.replay_dir(), "disp-correspondence.jsonl"), "w") as f:
+                f.write(ops[i] + "\n")
+            ctx.unproved(["correspondence C07 dispatcher (handlers.go Handle/handle, transactionlist_handler.go != NutsModel/C07/Dispatch.lean)"],
+                         detail + f"\nreplay ops: {ctx.replay_dir()}/disp-correspondence.jsonl")
+    else:
+        ctx.oblige("correspondence:dispatcher-model=impl", True, f"{len(impl)} lines equal")
+    ctx.cov["dispatcher_leg"] = {"ops": len(impl), **dict(stats)}
+
+
 def scenario_slices(ops):
     """index of the universe header and (first,last) op index of each scenario"""
     header = None
@@ -195,6 +308,11 @@ def run(ctx):
         ctx.oblige("harness-builds", False, ctx.harness_error[-1500:])
         return
     ctx.oblige("harness-builds", True)
+    if ctx.replay and is_disp_replay(ctx.replay):
+        run_disp(ctx, binary)
+        return
+    if not ctx.replay:
+        run_disp(ctx, binary)
     env = {}
     if ctx.replay:
         env["VERIF_REPLAY"] = os.path.abspath(ctx.replay)
